@@ -65,6 +65,7 @@ bool exec_apply(ExecCtx &c) {
                 has_int = x.getSupport().numberOfIntervals() > 0;
               }
               if (same) factor_probes(v, x);
+              if (has_int) c08_note(E_APPLY_FACTOR, x.getSupport().getGrid(), v.getSupport().getGrid());
               uint64_t reshash = 0, h2 = 0;
               bool have = false, have_twin = false;
               if (distinct) {
@@ -165,6 +166,7 @@ bool exec_apply(ExecCtx &c) {
               sim::Exempt e;
               has_int = x.getSupport().numberOfIntervals() > 0;
             }
+            if (has_int && og) c08_note(E_HELD_APPLY, x.getSupport().getGrid(), *og);
             libcall(out, [&] {
               auto res = oper * x;
               store_result(c, dst, std::move(res));
